@@ -151,6 +151,37 @@ def try_one(sid, tier, props=None):
     return res
 
 
+def reverify(sid):
+    """does the seeded change still apply to, and still manifest on, the CURRENT /repo HEAD (later fix: commits may have moved or neutralised it)?"""
+    d = os.path.join(SEEDED, sid)
+    wt = "/tmp/seedrv_%d" % os.getpid()
+    sh(["git", "-C", REPO, "worktree", "remove", "--force", wt])
+    sh(["git", "-C", REPO, "worktree", "add", "--detach", wt, "HEAD"])
+    head = sh(["git", "-C", REPO, "rev-parse", "--short", "HEAD"]).stdout.strip()
+    rec = {"head": head}
+    try:
+        r = sh(["git", "-C", wt, "apply", os.path.join(d, "patch.diff")])
+        how = "plain"
+        if r.returncode:
+            r = sh(["git", "-C", wt, "apply", "--3way", os.path.join(d, "patch.diff")])
+            how = "3way"
+        rec["applies"] = (how if r.returncode == 0 else False)
+        if r.returncode == 0:
+            os.makedirs(os.path.join(wt, "_seeded"), exist_ok=True)
+            demo = os.path.join(wt, "_seeded", "demo.py")
+            shutil.copy(os.path.join(d, "demo.py"), demo)
+            rc, out = run_demo(wt, demo)
+            rec["demo_rc_with_patch"] = rc
+            rec["manifests"] = rc != 0
+    finally:
+        sh(["git", "-C", REPO, "worktree", "remove", "--force", wt])
+        shutil.rmtree(wt, ignore_errors=True)
+    meta = json.load(open(os.path.join(d, "meta.json")))
+    meta["reverified"] = rec
+    json.dump(meta, open(os.path.join(d, "meta.json"), "w"), indent=1)
+    return rec
+
+
 def load_results():
     p = os.path.join(SEEDED, "RESULTS.json")
     return json.load(open(p)) if os.path.exists(p) else {}
@@ -179,6 +210,13 @@ def main(argv):
                 print("%-14s %-4s %-12s %6.1fs  %s" % (sid, p, status, c.get("wall", 0), (c.get("first") or [""])[0][:170]))
             sys.stdout.flush()
             json.dump(results, open(os.path.join(SEEDED, "RESULTS.json"), "w"), indent=1, sort_keys=True)
+        return 0
+    if argv[0] == "reverify":
+        ids = sorted(d for d in os.listdir(SEEDED) if os.path.isdir(os.path.join(SEEDED, d))) if argv[1] == "all" else argv[1:]
+        for sid in ids:
+            rec = reverify(sid)
+            if not rec.get("manifests"):
+                print("%-10s applies=%s demo_rc=%s  <- does not manifest on HEAD %s" % (sid, rec.get("applies"), rec.get("demo_rc_with_patch"), rec["head"]))
         return 0
     if argv[0] == "try":
         tier = argv[2] if len(argv) > 2 and not argv[2].startswith("--") else "quick"
